@@ -274,7 +274,7 @@ class Check:
         cov = {
             'states': max(self.paths, 1), 'transitions': max(self.nqueries, 1),
             'traces_validated_against_impl': self.replayed,
-            'samples': self.samples[:6] or [{'obligation': ob.name, 'bounds': ob.bounds} for ob in self.obligations[:3]],
+            'samples': (self.samples[:6] + [{'obligation': ob.name, 'bounds': ob.bounds, 'assertions': ob.sample_assertions} for ob in self.obligations[:4]])[:8],
             'obligations': len(self.obligations), 'discharged_assertions': self.discharged,
             'reachability_witnesses': self.reach,
             'queries': self.nqueries, 'solver_time_s': round(self.solver_time, 2),
@@ -323,6 +323,7 @@ class Obligation:
         self.expect_reach = True
         self.panic_handler = None
         self.seen_cex = set()
+        self.sample_assertions = []
 
     def on_panic(self, ex, p):
         if self.panic_handler is not None:
@@ -346,6 +347,9 @@ class Obligation:
         self.nqueries += 1
         if r == z3.unsat:
             self.discharged += 1
+            if len(self.sample_assertions) < 2:
+                self.sample_assertions.append({'assertion': label, 'verdict': 'unsat: holds on this path for all symbolic values',
+                                               'path_condition_conjuncts': len(ex.pc), 'negated_assertion': str(neg)[:300]})
             return True
         if r == z3.unknown:
             self.inconclusive.append('solver unknown at assertion %s' % label)
